@@ -12,7 +12,8 @@ oracle: (a) in-process: h_c06 runs the REAL front end (`Sema` + `check_program`,
             flag = absence of errors, every diagnostic span inside the file it names, printable messages;
         (b) CLI: `dora compile --cannon -c` on a sample (always incl. every panicking input found in (a)):
             exit status 0 or 1, `error:` messages, no "panicked at", no signal.
-Each distinct panic SITE is its own finding key `oracle:panic:<file>:<enclosing fn>` with a minimised input.
+Panics on inputs meant to be valid are keyed per SITE (`oracle:panic:<file>:<enclosing fn>`), panics on deliberately broken
+inputs per source FILE (`oracle:panic-on-invalid-input:<file>`), each with a minimised input; see finding_key().
 """
 import concurrent.futures
 import hashlib
@@ -182,6 +183,30 @@ def run_sharded(hbin, reqs, tag, nproc=NPROC, per_req_s=25):
         for j, r in enumerate(res[k]):
             out[k + j * n] = r
     return out
+
+
+# Files whose behaviour is modelled and proved total in Lean (C16/C06 theorems): a panic there is never "expected".
+PROVED_TOTAL = ("dora-parser/src/lexer.rs", "dora-parser/src/green.rs", "dora-parser/src/lib.rs", "dora-parser/src/span.rs")
+
+
+def finding_key(site, family):
+    """Identity of a front-end panic.
+    * input meant to be a VALID program (a `grammar:clean` program of the generator) or a panic inside code that
+      is proved total: one finding per panic SITE  -> oracle:panic:<file>:<fn>
+    * input that is broken on purpose (token mutants, soups, fixed fragments, grammar programs with an injected fault, minimised
+      corpus crashers): the root cause is one per source file — its error-recovery paths assume well-formed input
+      (`unwrap`/`assert`/`expect` on nodes or sema state that are missing after an error). These are reported per FILE
+      -> oracle:panic-on-invalid-input:<file>; the individual sites are listed in the evidence (`panic_table`)."""
+    fk = enclosing_fn(site)
+    file_ = fk.split(":")[0]
+    # (repository files are NOT counted as valid input: many are error tests or need sibling files when analysed alone)
+    if family == "grammar:clean" or file_ in PROVED_TOTAL:
+        if file_ == "dora-frontend/src/generator/bytecode.rs":
+            # the BytecodeBuilder::emit_* methods all assert the register types of their operands; the generated programs
+            # that trip them (generic structs/enums, code after an infinite loop) trip whichever emit_* comes first
+            return "oracle:panic:" + file_ + ":BytecodeBuilder::emit_*"
+        return "oracle:panic:" + fk
+    return "oracle:panic-on-invalid-input:" + file_
 
 
 def read_requests(path):
@@ -390,8 +415,8 @@ def run(ctx):
         # ---- one finding per panic site, with a minimised input
         groups = {}       # finding key -> inputs (several raw sites / caller chains may share one key)
         for site, lst in site_inputs.items():
-            k = "oracle:panic:" + enclosing_fn(site)
-            groups.setdefault(k, []).extend([x + (site,) for x in lst])
+            for x in lst:
+                groups.setdefault(finding_key(site, x[2]), []).append(x + (site,))
         keys_sorted = sorted(groups)
         budget = "150" if ctx.tier == "quick" else "1500"
         starts = [min(groups[k], key=lambda x: x[0]) for k in keys_sorted]
@@ -472,7 +497,7 @@ def run(ctx):
                     bump(stats["cli_hist"], "cli:panic@" + site)
                     if site in reported_bases:
                         continue          # the same site as an in-process finding of this run: one defect, one finding
-                    key = "oracle:panic:" + enclosing_fn(site)
+                    key = finding_key(site, fam)
                 else:
                     key = "oracle:cli:" + cls
                 stats["oracle_failures"] += 1
@@ -488,7 +513,7 @@ def run(ctx):
 
     site_table = stats["panic_table"]
     for row in site_table:
-        C.log("C06: panic site %-70s inputs=%-4d minimized=%r" % (row["key"][len("oracle:panic:"):], row["inputs"], row["minimized"][:100]))
+        C.log("C06: panic site %-70s inputs=%-4d minimized=%r" % (row["key"], row["inputs"], row["minimized"][:100]))
     diag_sorted = dict(sorted(stats["diag"].items(), key=lambda kv: -kv[1]))
     referenced = diag_referenced(names)
     not_hit = sorted(referenced - set(diag_sorted))
